@@ -2,78 +2,14 @@
    Stated for every registry, every list of validators (arbitrary user code), all arguments, every world and fuel. *)
 From Coq Require Import List ZArith Bool String.
 Import ListNotations.
-Require Import Base Prog Sig Interp InterpFacts StmtFacts Model Validators HasPatcher Contracts.
+Require Import Base Prog Sig Interp InterpFacts StmtFacts Model Validators HasPatcher Contracts Loops.
 Set Implicit Arguments.
 
 Section Gate.
   Variable ftab : fid -> option fdef.
   Notation I := (interp ftab).
+  Notation run_pres := (run_vals ftab).
 
-  (* reference semantics of "run the preconditions in application order, stop at the first that does not accept" *)
-  Fixpoint run_pres (n : nat) (l : list validator) (a : pargs) (k : pkwargs) (w : world) : res unit :=
-    match l with
-    | [] => Done (inl tt) w
-    | v :: t => match I n (validate v a k None) w with
-                | Done (inl _) w1 => run_pres n t a k w1
-                | Done (inr e) w1 => Done (inr e) w1
-                | Susp x kk w1 => Susp x kk w1
-                | OutOfFuel => OutOfFuel
-                end
-    end.
-
-  (* the generated loop `for validator in self.pres: validator.validate(args, kwargs)`, for any locals record *)
-  Section Loop.
-    Variables (env R : Type) (setv : validator -> env -> env) (getv : env -> validator) (geta : env -> pargs) (getk : env -> pkwargs).
-    Hypothesis getv_set : forall v e, getv (setv v e) = v.
-    Hypothesis geta_set : forall v e, geta (setv v e) = geta e.
-    Hypothesis getk_set : forall v e, getk (setv v e) = getk e.
-    Let body : stmt env R := s_do (fun e => validate (getv e) (geta e) (getk e) None).
-
-    Lemma loop_accept n l : forall e w w1,
-      run_pres n l (geta e) (getk e) w = Done (inl tt) w1 ->
-      exists e1, I n (s_for_list setv l body e) w = Done (inl (CNormal, e1)) w1 /\ geta e1 = geta e /\ getk e1 = getk e.
-    Proof.
-      induction l as [|v t IH]; intros e w w1 H.
-      - cbn in H. inversion H; subst. exists e. rewrite for_nil. auto.
-      - cbn [run_pres] in H.
-        destruct (I n (validate v (geta e) (getk e) None) w) as [[[]|x] w2|? ? w2|] eqn:E; try discriminate.
-        assert (Hb : I n (body (setv v e)) w = Done (inl (CNormal, setv v e)) w2).
-        { unfold body. apply do_done. rewrite getv_set, geta_set, getk_set. exact E. }
-        erewrite for_cons_normal by exact Hb.
-        destruct (IH (setv v e) w2 w1) as (e1 & H1 & H2 & H3).
-        { rewrite geta_set, getk_set. exact H. }
-        exists e1. rewrite H2, H3, geta_set, getk_set. auto.
-    Qed.
-    Lemma loop_reject n l : forall e w x w1,
-      run_pres n l (geta e) (getk e) w = Done (inr x) w1 ->
-      I n (s_for_list setv l body e) w = Done (inr x) w1.
-    Proof.
-      induction l as [|v t IH]; intros e w x w1 H.
-      - cbn in H. discriminate.
-      - cbn [run_pres] in H.
-        destruct (I n (validate v (geta e) (getk e) None) w) as [[[]|y] w2|? ? w2|] eqn:E; try discriminate.
-        + assert (Hb : I n (body (setv v e)) w = Done (inl (CNormal, setv v e)) w2).
-          { unfold body. apply do_done. rewrite getv_set, geta_set, getk_set. exact E. }
-          erewrite for_cons_normal by exact Hb. apply IH. rewrite geta_set, getk_set. exact H.
-        + inversion H; subst. apply for_cons_raise. unfold body. apply do_raise.
-          rewrite getv_set, geta_set, getk_set. exact E.
-    Qed.
-    Lemma loop_oof n l : forall e w,
-      run_pres n l (geta e) (getk e) w = OutOfFuel ->
-      I n (s_for_list setv l body e) w = OutOfFuel.
-    Proof.
-      induction l as [|v t IH]; intros e w H.
-      - cbn in H. discriminate.
-      - cbn [run_pres] in H.
-        destruct (I n (validate v (geta e) (getk e) None) w) as [[[]|y] w2|? ? w2|] eqn:E; try discriminate.
-        + assert (Hb : I n (body (setv v e)) w = Done (inl (CNormal, setv v e)) w2).
-          { unfold body. apply do_done. rewrite getv_set, geta_set, getk_set. exact E. }
-          erewrite for_cons_normal by exact Hb. apply IH. rewrite geta_set, getk_set. exact H.
-        + apply for_cons_oof. unfold body. apply do_oof. rewrite getv_set, geta_set, getk_set. exact E.
-    Qed.
-  End Loop.
-
-  Definition dbg (b : bool) (w : world) : world := on_st (set_debug b) w.
 
   (* ---------------- _run_sync ---------------- *)
   Section Sync.
@@ -122,10 +58,12 @@ Section Gate.
         I n (run lf c a k) w = I n (run_body (tail3 lf c) e1 VNone) (dbg true w1).
     Proof.
       intros Hd Hp. rewrite sync_head by exact Hd. unfold tail2.
-      destruct (@loop_accept env value set_validator l_validator l_args l_kwargs
+      pose proof (@loop_accept ftab env value set_validator l_validator l_args l_kwargs
                   (fun _ _ => eq_refl) (fun _ _ => eq_refl) (fun _ _ => eq_refl) n (c_pres c)
-                  (set_kwargs k (set_args a env0)) (dbg false w) w1 Hp) as (e1 & H1 & Ha & Hk).
-      exists e1. repeat split; [exact Ha|exact Hk|].
+                  (set_kwargs k (set_args a env0)) (dbg false w) w1 Hp) as H1.
+      exists (after_loop set_validator (c_pres c) (set_kwargs k (set_args a env0))). repeat split.
+      { rewrite (after_loop_a set_validator l_args (fun _ _ => eq_refl)). reflexivity. }
+      { rewrite (after_loop_k set_validator l_kwargs (fun _ _ => eq_refl)). reflexivity. }
       erewrite run_body_seq_normal; [reflexivity|].
       unfold stmt2. erewrite finally_done by (unfold s_for; exact H1). cbn beta iota.
       erewrite interp_bind_done by apply sync_fin. apply interp_ret.
@@ -203,10 +141,12 @@ Section Gate.
         I n (run lf c a k) w = I n (run_body (tail3 lf c) e1 VNone) (dbg true w1).
     Proof.
       intros Hd Hp. rewrite async_head by exact Hd. unfold tail2.
-      destruct (@loop_accept env value set_validator l_validator l_args l_kwargs
+      pose proof (@loop_accept ftab env value set_validator l_validator l_args l_kwargs
                   (fun _ _ => eq_refl) (fun _ _ => eq_refl) (fun _ _ => eq_refl) n (c_pres c)
-                  (set_kwargs k (set_args a env0)) (dbg false w) w1 Hp) as (e1 & H1 & Ha & Hk).
-      exists e1. repeat split; [exact Ha|exact Hk|].
+                  (set_kwargs k (set_args a env0)) (dbg false w) w1 Hp) as H1.
+      exists (after_loop set_validator (c_pres c) (set_kwargs k (set_args a env0))). repeat split.
+      { rewrite (after_loop_a set_validator l_args (fun _ _ => eq_refl)). reflexivity. }
+      { rewrite (after_loop_k set_validator l_kwargs (fun _ _ => eq_refl)). reflexivity. }
       erewrite run_body_seq_normal; [reflexivity|].
       unfold stmt2. erewrite finally_done by (unfold s_for; exact H1). cbn beta iota.
       erewrite interp_bind_done by apply async_fin. apply interp_ret.
@@ -284,10 +224,12 @@ Section Gate.
         I n (run lf c a k) w = I n (run_body (tail3 lf c) e1 VNone) (dbg true w1).
     Proof.
       intros Hd Hp. rewrite iter_head by exact Hd. unfold tail2.
-      destruct (@loop_accept env value set_validator l_validator l_args l_kwargs
+      pose proof (@loop_accept ftab env value set_validator l_validator l_args l_kwargs
                   (fun _ _ => eq_refl) (fun _ _ => eq_refl) (fun _ _ => eq_refl) n (c_pres c)
-                  (set_kwargs k (set_args a env0)) (dbg false w) w1 Hp) as (e1 & H1 & Ha & Hk).
-      exists e1. repeat split; [exact Ha|exact Hk|].
+                  (set_kwargs k (set_args a env0)) (dbg false w) w1 Hp) as H1.
+      exists (after_loop set_validator (c_pres c) (set_kwargs k (set_args a env0))). repeat split.
+      { rewrite (after_loop_a set_validator l_args (fun _ _ => eq_refl)). reflexivity. }
+      { rewrite (after_loop_k set_validator l_kwargs (fun _ _ => eq_refl)). reflexivity. }
       erewrite run_body_seq_normal; [reflexivity|].
       unfold stmt2. erewrite finally_done by (unfold s_for; exact H1). cbn beta iota.
       erewrite interp_bind_done by apply iter_fin. apply interp_ret.
